@@ -435,3 +435,6 @@ Proof. vm_compute. reflexivity. Qed.
 
 (* for statements in files that do not open string_scope *)
 Definition w_time : list N := bs "Time".
+Definition w_tell : list N := bs "Tell".
+Definition w_shout : list N := bs "Shout".
+Definition w_shoutroom : list N := bs "ShoutRoom".
